@@ -3,6 +3,7 @@
 import warnings
 from typing import Optional, Tuple
 
+from linear_operator import to_dense
 from linear_operator.operators import to_linear_operator
 
 from .kernel import Kernel
@@ -71,7 +72,9 @@ class ProductStructureKernel(Kernel):
             raise RuntimeError("ProductStructureKernel does not accept the last_dim_is_batch argument.")
 
         res = self.base_kernel(x1, x2, diag=diag, last_dim_is_batch=True, **params)
-        res = res.prod(-2 if diag else -3)
+        # A base kernel may return a LinearOperator (e.g. LinearKernel): its lazy `prod` goes through root decompositions,
+        # which are approximate and only defined for square matrices. The d one-dimensional kernels are small: multiply densely.
+        res = to_dense(res).prod(-2 if diag else -3)
         return res
 
     def num_outputs_per_input(self, x1, x2):
